@@ -6,7 +6,7 @@ LEVEL = "exploration"
 B = guards.HARD_EVALS
 RULE = (
     "case = one call of the real calculate_partial_fluxes (C02's domain, 60 % of the cases with the permeate "
-    "temperature within |N(0, 8 K)| of the feed temperature where the fixed-point map cycles, both activity models, "
+    "temperature within |N(0, 8 K)| of the feed temperature where the fixed-point map cycles, about 1.5 % at the permeate pressure where the pressure-mode map has a neutral 2-cycle, both activity models, "
     "precision 1e-8..1e-3), the recorded D4 witness, plus ideal and non-ideal process / curve models started in that region. Two "
     f"independent online budgets watch every call: <= {B} driving-force evaluations (counter on the real helper) and "
     f"<= {B * guards.LINES_PER_EVAL} line events (sys.monitoring LINE on every code object of pyvaporation/pervaporation, so an inlined or "
@@ -53,7 +53,7 @@ def run_shard(spec, rep):
             break  # a broken tree: a few witnesses are enough, every further one costs the full budget
         rng = gen.case_rng(PROP, spec["seed"], spec["shard"], index)
         near = rng.random() < 0.6
-        fc = gen.FluxCase(rng, modes=["Tnear"] if near else ["T", "P", "Psmall", "Tnear", "V"])
+        fc = gen.FluxCase(rng, modes=["Tnear"] if near else ["T", "P", "Psmall", "Tnear", "V"] * 5 + ["Pneutral"])
         case = dict(fc.describe(), index=index)
         rep.case(case, nontrivial=fc.mode != "V", cls=f"{fc.model}-{fc.mode}")
         _guarded(rep, case, "flux", lambda: fc.pv.calculate_partial_fluxes(**fc.kwargs()))
